@@ -87,19 +87,19 @@ def models(tier, seed):
     q = tier == "quick"
     ms = [
         dict(module="MC_Avl2Native", cfg="MC_Avl2Native_nogap.cfg" if q else "MC_Avl2Native_nogap_thorough.cfg", workers=4 if q else 8,
-             timeout=900 if q else 3000, label="D_Avl2Native (code as read), no idle gaps in write bursts, vs R_AvlMem (exhaustive)"),
+             timeout=1800 if q else 3400, label="D_Avl2Native (code as read), no idle gaps in write bursts, vs R_AvlMem (exhaustive)"),
         dict(module="MC_Avl2Native", cfg="MC_Avl2Native_gap_fixed.cfg" if q else "MC_Avl2Native_gap_fixed_thorough.cfg",
-             workers=4 if q else 8, timeout=900 if q else 3000,
+             workers=4 if q else 8, timeout=1800 if q else 3400,
              label="D_Avl2Native with the proposed burst-end repair, idle gaps allowed, vs R_AvlMem (exhaustive)"),
-        dict(module="MC_Avl2Native", cfg="MC_Avl2Native_gap_asis.cfg", workers=2, timeout=600, expect_violation=True,
+        dict(module="MC_Avl2Native", cfg="MC_Avl2Native_gap_asis.cfg", workers=2, timeout=1500, expect_violation=True,
              label="D_Avl2Native code as read, idle gaps allowed: TLC exhibits the write-burst gap defect (expected violation)"),
-        dict(module="MC_Avl2Native", cfg="MC_Avl2Native_neg_noinc.cfg", workers=2, timeout=600, expect_violation=True,
+        dict(module="MC_Avl2Native", cfg="MC_Avl2Native_neg_noinc.cfg", workers=2, timeout=1500, expect_violation=True,
              label="negative control: burst address not incremented"),
-        dict(module="MC_Avl2Native", cfg="MC_Avl2Native_neg_endearly.cfg", workers=2, timeout=600, expect_violation=True,
+        dict(module="MC_Avl2Native", cfg="MC_Avl2Native_neg_endearly.cfg", workers=2, timeout=1500, expect_violation=True,
              label="negative control: read burst ends one beat early"),
-        dict(module="MC_Avl2Native", cfg="MC_Avl2Native_neg_wfull.cfg", workers=2, timeout=600, expect_violation=True,
+        dict(module="MC_Avl2Native", cfg="MC_Avl2Native_neg_wfull.cfg", workers=2, timeout=1500, expect_violation=True,
              label="negative control: beat accepted while the data FIFO is full"),
-        dict(module="MC_Avl2Native", cfg="MC_Avl2Native_cover.cfg", workers=2, timeout=600, expect_violation=True,
+        dict(module="MC_Avl2Native", cfg="MC_Avl2Native_cover.cfg", workers=2, timeout=1500, expect_violation=True,
              extra=("-simulate", "num=4000", "-depth", "400"),
              label="vacuity guard: FIFO full, stalled commands, gaps, draining, outstanding commands are reachable"),
     ]
